@@ -8,6 +8,7 @@
 
 from __future__ import annotations
 
+import builtins
 import copy
 import logging
 import threading
@@ -327,7 +328,9 @@ class RemoteAssertionTraceObserver(ex.RemoteExecutionObserver):
             max_depth: The maximum recursion depth.
         """
         if isinstance(value, float):
-            trace.add_entry(position, ass.FloatAssertion(source, value))
+            if value == value:  # noqa: PLR0124
+                # NaN equals nothing, not even under pytest.approx
+                trace.add_entry(position, ass.FloatAssertion(source, value))
             return
         if is_assertable(value):
             trace.add_entry(position, ass.ObjectAssertion(source, copy.deepcopy(value)))
@@ -417,8 +420,12 @@ class RemoteAssertionTraceObserver(ex.RemoteExecutionObserver):
         """
         if not hasattr(typ, "__module__") or not hasattr(typ, "__qualname__"):
             return False
+        if "<locals>" in typ.__qualname__:
+            # Defined inside a function, cannot be referenced by name.
+            return False
         if typ.__module__ == "builtins":
-            return True
+            # E.g., dict_keys or generator live in builtins without a builtin name.
+            return hasattr(builtins, typ.__qualname__)
         return typ.__module__ == config.configuration.module_name
 
 
